@@ -2,6 +2,6 @@ SPECIFICATION GSpec
 CONSTANTS Configs <- GenQ1Configs OptNames <- GQOptNames SecNames <- GQSecNames Values <- GQValues
           Decos <- GQDecos MaxNodes = 1 MaxDepth = 1
           FrontEnds <- AllFE LoadAccs <- GenLoadAccs Pres = {0, 2} MaxLoads = 1 MaxFail = 1 MaxAside = 0
-          XNames <- XN XValues <- QV XDecos <- QD
+          XNames <- XN XValues <- GXV XDecos <- QD
 INVARIANT CasesInv
 CHECK_DEADLOCK FALSE
